@@ -66,7 +66,7 @@ structure Sheet where
   colAt : Int → ColView
   rowAt : Int → RowView
   /-- `Worksheet.links`: (row, column, target) — no modelled operation creates one, but
-      `delete_sheet` and its undo carry them along (finding F01d) -/
+      `delete_sheet` and its undo carry them along (the undo restores them since the fix of F01d) -/
   links : List (Int × Int × String) := []
 
 /-- `types.rs::DefinedName` (the formula is an opaque text here) -/
@@ -434,8 +434,8 @@ def back1 (env : Env) (b : Book) : Diff → Except Err Book
   | .newSheet i _ => mDeleteSheet b i
   | .deleteSheet i old =>
     -- `insert_sheet(name, index, Some(sheet_id))`, then the fields the arm copies back:
-    -- rows, cols, show_grid_lines, frozen_columns, frozen_rows, state, color
-    -- (NOT `links` and `conditional_formatting`: finding F01d)
+    -- rows, cols, show_grid_lines, frozen_columns, frozen_rows, state, color, links
+    -- (`links` and `conditional_formatting` since the fix of finding F01d)
     match mInsertSheet env b old.name i (some old.id) with
     | .error e => .error e
     | .ok b1 =>
@@ -446,7 +446,7 @@ def back1 (env : Env) (b : Book) : Diff → Except Err Book
           { s with
             rowAt := old.rowAt, colAt := old.colAt,
             grid := old.grid, frozenCols := old.frozenCols, frozenRows := old.frozenRows,
-            state := old.state, color := old.color })
+            state := old.state, color := old.color, links := old.links })
   | .deleteDefinedName name scope old => mNewDefinedName env b name scope old
   | .setColumnWidth sheet c old _ => mSetColumnWidth b sheet c old
   | .setRowHeight sheet r old _ => mSetRowHeight b sheet r old
